@@ -395,7 +395,7 @@ def gen_c03(tier, rng):
     i = 0
     for size in sizes:
         for bs in range(0, 4 if tier == "quick" else 5):
-            for entry in range(0, 19):
+            for entry in range(0, 20):
                 kinds = (i % 4,) if tier == "quick" else (0, 1, 2, 3)
                 i += 1
                 for kind in kinds:
@@ -410,7 +410,7 @@ def gen_c03(tier, rng):
 PROPS["C03"] = Prop(
     [F_OUTBOARD], gen_c03,
     "outboard: byte-size classes around chunk and group boundaries up to 32 KiB (quick) / 64 KiB plus every multiple of 512 up to "
-    "32 KiB (thorough) x block sizes 0..3/4 x 19 creation entry points (incl. two creates from one handle, a handle not at position 0, sources longer than the size) (sync/fsm x pre/post x io/memory, create / create_sized / "
+    "32 KiB (thorough) x block sizes 0..3/4 x 20 creation entry points (incl. two creates from one handle, a handle not at position 0, sources longer than the size, two blobs back to back on one stream) (sync/fsm x pre/post x io/memory, create / create_sized / "
     "init_from over a stale outboard / outboard() into pre-sized memory outboards / outboard_post_order writers) x contents "
     "{random, constant, repeating chunk, chunk-index pattern}. Observed: root, stored bytes, load() of every node, plus the harness's own "
     "comparison with blake3::hash and bao::encode::outboard. non-trivial = more than one chunk",
@@ -1139,7 +1139,8 @@ def gen_sched(tier, rng, with_faults):
                 if with_faults:
                     # the k-th read of the stream reader fails, for every k up to the fault-free call count (sync read sizes are exact)
                     for k in range(0, 2 * len(lay) + 3):
-                        for kindc in ((0, 1, 2, 3) if tier == "thorough" else (rng.randrange(0, 4),)):
+                        # (6 = TimedOut: a transient-looking kind must surface like any other)
+                        for kindc in ((0, 1, 2, 3, 6) if tier == "thorough" else (rng.choice([0, 1, 2, 3, 6]),)):
                             sc = rng.choice(scheds)
                             cases.append(sched_case(0, sd, size, bs, rng.choice([0, 0, 2]), (k + 1, kindc), 0, q, sc))
         # outboard creation through a scheduled data reader
@@ -1292,6 +1293,30 @@ PROPS["C13"] = Prop(
     assumptions=_old_c13.assumptions)
 
 
+def gen_odd_providers(tier, rng):
+    """providers whose data file is shorter (a group-aligned prefix) or longer than the blob the outboard describes"""
+    cases = []
+    for size in ([5 * 1024 + 7, 16 * 1024 + 1] if tier == "quick" else [2049, 5 * 1024 + 7, 8 * 1024, 16 * 1024 + 1, 31 * 1024]):
+        n = nchunks(size)
+        for bs in (0, 1, 2):
+            g = 1 << bs
+            groups = -(-n // g)
+            if groups < 2:
+                continue
+            for _ in range(2 if tier == "quick" else 6):
+                c = rng.randrange(1, groups) * g          # chunks held (group aligned)
+                a0 = rng.randrange(0, c)
+                qs = [[0, c], [a0, c], [0, max(1, c - 1)], [0, c + 1], [0, 1, a0 + 1, c] if a0 >= 1 else [0, c]]
+                qs = [q for q in qs if all(q[i] < q[i + 1] for i in range(len(q) - 1))]
+                sd = seed(rng)
+                for cor in ([4, c * 1024, 0], [4, min(size, c * 1024 + rng.randrange(1, 1024)), 0], [5, rng.choice([1, 700, 5000]), 0]):
+                    for q in qs + ([[0], [n - 1, n + 3]] if cor[0] == 5 else []):
+                        # (the non-validating encoders only at block size 0: above it they send partially selected groups whole, finding F6)
+                        for e in (range(0, 5) if bs == 0 else (0, 1, 4)):
+                            cases.append(("encode", [0, sd, size, bs, e, rng.randrange(0, 4), 1] + cor + q))
+    return cases
+
+
 def gen_c14_cross(tier, rng):
     """sel-equal query pairs: identical encodings, and each decodes the other's encoding"""
     cases = []
@@ -1320,27 +1345,7 @@ def gen_c14_cross(tier, rng):
                     cases.append(("encode", [0, sd, size, bs, e, rng.randrange(0, 4), 0] + q2))
                     d, sk = rng.choice(drivers_and_sinks(rng, False))
                     cases.append(dec_case(0, sd, size, bs, size, d, sk, q1, qs=q2))
-    # a provider that holds only a prefix of the blob (with the complete outboard): queries are canonicalised
-    # against the blob's size, not the size of what is stored; a query ending at the end of the prefix is served
-    for size in ([5 * 1024 + 7, 16 * 1024 + 1] if tier == "quick" else [2049, 5 * 1024 + 7, 8 * 1024, 16 * 1024 + 1, 31 * 1024]):
-        n = nchunks(size)
-        for bs in (0, 1, 2):
-            g = 1 << bs
-            groups = -(-n // g)
-            if groups < 2:
-                continue
-            for _ in range(2 if tier == "quick" else 6):
-                c = rng.randrange(1, groups) * g          # chunks held (group aligned)
-                cuts = [c * 1024, c * 1024 + rng.randrange(1, 1024)]
-                a0 = rng.randrange(0, c)
-                qs = [[0, c], [a0, c], [0, max(1, c - 1)], [0, c + 1], [0, 1, a0 + 1, c] if a0 >= 1 else [0, c]]
-                sd = seed(rng)
-                qs = [q for q in qs if all(q[i] < q[i + 1] for i in range(len(q) - 1))]
-                for cut in cuts:
-                    for q in qs:
-                        # (the non-validating encoders only at block size 0: above it they send partially selected groups whole, finding F6)
-                        for e in (range(0, 5) if bs == 0 else (0, 1, 4)):
-                            cases.append(("encode", [0, sd, size, bs, e, rng.randrange(0, 4), 1, 4, min(cut, size), 0] + q))
+    cases += gen_odd_providers(tier, rng)
     return cases
 
 
@@ -1490,6 +1495,12 @@ _with("C09", [F_SCHED], lambda tier, rng: [c for c in gen_sched(tier, random.Ran
       "sched: honest and truncated streams delivered through fragmenting transports (a short read is not an end of stream).")
 _with("C03", [F_SCHED], lambda tier, rng: [c for c in gen_sched(tier, random.Random(rng.randrange(1 << 30)), False) if c[1][4] in (4, 5)],
       "sched: creation reading the blob through fragmenting / interrupting readers.")
+_with("C03", [F_SHORTW], lambda tier, rng: [c for c in gen_shortw(tier, random.Random(rng.randrange(1 << 30))) if c[1][4] == 2],
+      "shortw: outboard_post_order writing into sinks that take few bytes per call or fill up (the error must surface).")
+for _p in ("C05", "C08"):
+    _with(_p, [F_ENCODE], lambda tier, rng: gen_odd_providers(tier, random.Random(rng.randrange(1 << 30))),
+          "encode: providers whose data file is a group-aligned prefix of the blob, or longer than the blob, with the complete outboard: "
+          "all five encoders send exactly what a complete provider would, up to the first group they do not hold.")
 _with("C04", [F_SHORTW], lambda tier, rng: [c for c in gen_shortw(tier, random.Random(rng.randrange(1 << 30)))
                                           if c[1][4] in (0, 1, 3, 5) and c[1][6] == BIGCAP],
       "shortw: the sync encoders writing into sinks that take few bytes per call and reading data / outboard through stores with short positioned reads.")
